@@ -1,5 +1,6 @@
 import Anysystem.Proofs.SimNetThms
 import Anysystem.Proofs.SimRunThms
+import Anysystem.Proofs.SimDelivery
 /-!
 # C05 — The simulated network delivers only what link state and fault rates allow
 
@@ -33,5 +34,17 @@ namespace Anysystem
 #check @Sim.TraceOrigin.recoverNode
 #check @Sim.received_intact_no_corruption
 #check @Sim.queued_intact_no_corruption
+
+/- between live nodes nothing is lost silently: with duplication off and no node down every issued message id keeps exactly one
+   of {live queued copy, receipt, recorded drop}; when the queue has run dry every send has exactly one recorded fate, and a
+   message never recorded as dropped has been received exactly once (with `send_drop_zero_delivers`: drop rate 0 on an enabled
+   path between live nodes ⇒ delivered) -/
+#check @Sim.ExactFate.init
+#check @Sim.ExactFate.sendMessage
+#check @Sim.ExactFate.step
+#check @Sim.ExactFate.steps
+#check @Sim.ExactFate.sendLocal
+#check @Sim.every_send_has_one_fate
+#check @Sim.delivered_once_if_not_dropped
 
 end Anysystem
